@@ -8,16 +8,27 @@
 // handing a reference to the callee — `x.Mul(&r, &TheCurve.beta)` reads beta — instead of as a write.)
 //
 // The analysis type-checks lib/secp256k1 of the tree under test (go/types, exactly the files a plain build
-// compiles), takes every function of the package except init / init_contants and classifies every use of a
-// package-level variable:
+// compiles), takes every function of the package except init / init_contants AND every func literal found in the
+// initialiser of a package-level variable (except one that is called on the spot: that call is initialisation), and
+// classifies every use of a package-level variable:
 //
 //	write  = assigned (also through index / field / *), ++/--, address taken and kept, receiver of a method that is not
 //	         known to be read-only, passed in a destination position (copy dst, append base, big.Int DivMod/QuoRem
 //	         remainder, GCD x/y), passed to an unknown callee, or handed on (returned, stored, sent) as a reference.
-//	         Local aliases (x := &global, x := global for reference kinds) and parameters of callees inside the
-//	         package are followed.
 //	sync   = receiver of a method of package sync / sync/atomic (allowed: synchronised by construction)
 //	read   = everything else
+//
+// FOLLOWED (a local becomes an alias of the package-level variable; the walk is repeated until the alias map is
+// stable, so an alias made later in the text than its use counts): x := &g, x := g / g.f / g[i] / g[a:b] / *g for
+// reference kinds, conversions T(g), type assertions g.(T) and type switches, channel receives <-g, the comma-ok forms
+// of these, range variables of reference kind over g, results of methods of FOREIGN types called on g unless known to
+// be fresh (big.Int.Bits hands out the number's own words), parameters of callees inside the package, and the body of
+// a plain func literal held by a package-level func variable that is assigned nowhere else.
+// NOT FOLLOWED, therefore REPORTED as a write (unknown ⇒ flagged): a call through any other function value that lives
+// in package-level state (closure returned by a call, func field / element, func variable set in init), a method value
+// bound to package-level state, a reference returned by a function of the package.
+// NOT SEEN: unsafe / reflect / cgo / assembly, state inside other packages, memory shared through the arguments.
+// selftest.go runs the analysis on synthetic shapes of each kind before the verdict on the real package is written.
 //
 // It writes lean/GocoinV/Gen/C08Shared.lean: globalsRead, globalsWritten (expected []), invScratchShared (does the call
 // closure of Field.InvVar — the one function that leaves the limb representation for math/big — write a package-level
@@ -96,7 +107,8 @@ func (m *srcImporter) load(path string) (*loadedPkg, error) {
 		files = append(files, f)
 	}
 	info := &types.Info{Uses: map[*ast.Ident]types.Object{}, Defs: map[*ast.Ident]types.Object{},
-		Selections: map[*ast.SelectorExpr]*types.Selection{}, Types: map[ast.Expr]types.TypeAndValue{}}
+		Selections: map[*ast.SelectorExpr]*types.Selection{}, Types: map[ast.Expr]types.TypeAndValue{},
+		Implicits: map[ast.Node]types.Object{}}
 	var firstErr error
 	cfg := types.Config{Importer: m, IgnoreFuncBodies: !m.full[path], FakeImportC: true, Error: func(e error) {
 		if firstErr == nil {
@@ -120,6 +132,10 @@ type analysis struct {
 	decl  map[*types.Func]*ast.FuncDecl
 	owner map[*types.Func]*loadedPkg
 	memo  map[string]int // paramWritten: 0 unknown, 1 in progress, 2 no, 3 yes
+	// package-level variables of function type whose initialiser is a plain func literal and that are assigned nowhere
+	// else (init included): a call through such a variable is a call of that body (scanned as a root of its own)
+	litOf map[types.Object]*ast.FuncLit
+	litLp map[*ast.FuncLit]*loadedPkg
 }
 
 type finding struct {
@@ -182,7 +198,7 @@ var readOnlyPkgs = map[string]bool{"fmt": true, "strings": true, "errors": true,
 
 // read-only methods of *big.Int (receiver only read)
 var bigIntReadOnly = map[string]bool{"Cmp": true, "CmpAbs": true, "Sign": true, "Int64": true, "Uint64": true, "IsInt64": true,
-	"IsUint64": true, "Bytes": true, "FillBytes": true, "BitLen": true, "Bit": true, "Bits": true, "String": true, "Text": true,
+	"IsUint64": true, "Bytes": true, "FillBytes": true, "BitLen": true, "Bit": true, "String": true, "Text": true,
 	"Append": true, "TrailingZeroBits": true, "ProbablyPrime": true, "Format": true, "Float64": true}
 
 // destination parameters (besides the receiver) of *big.Int methods
@@ -193,13 +209,19 @@ type walker struct {
 	lp      *loadedPkg
 	fn      string
 	tracked func(types.Object) bool
-	param   bool // tracking one parameter: re-assigning the parameter variable itself is not a write
+	param   bool                          // tracking one parameter: re-assigning the parameter variable itself is not a write
 	alias   map[types.Object]types.Object // local -> root
 	reads   map[types.Object]bool
 	syncs   map[types.Object]bool
 	out     []finding
 	handed  map[*ast.UnaryExpr]bool // &x expressions already accounted for as "reference handed on"
+	callFun map[ast.Expr]bool       // selector expressions in call position (everything else that selects a method is a method VALUE)
 }
+
+// results of these methods of types outside the package are fresh memory; the result of every other such method is
+// taken to share memory with its receiver (big.Int.Bits hands out the number's own words)
+var freshResult = map[string]bool{"Bytes": true, "String": true, "Text": true, "Append": true, "Error": true, "Sum": true,
+	"MarshalBinary": true, "FillBytes": true}
 
 func (w *walker) resolve(o types.Object) types.Object {
 	if o == nil {
@@ -226,6 +248,26 @@ func (w *walker) rootOf(e ast.Expr) types.Object {
 			e = x.X
 		case *ast.StarExpr:
 			e = x.X
+		case *ast.TypeAssertExpr: // v.(T): the dynamic value of an interface shares memory with what was put into it
+			e = x.X
+		case *ast.UnaryExpr:
+			if x.Op != token.ARROW && x.Op != token.AND { // <-ch: what is received was reachable from the channel
+				return nil
+			}
+			e = x.X
+		case *ast.CallExpr:
+			if tv, ok := w.lp.info.Types[x.Fun]; ok && tv.IsType() && len(x.Args) == 1 {
+				e = x.Args[0] // conversion T(v): same memory for reference kinds
+				continue
+			}
+			// method of a type outside the analysed package called on tracked memory: the result is taken to share
+			// memory with the receiver unless the method is known to return fresh memory. (Results of functions and
+			// methods of the package itself are judged in the callee: returning a tracked reference is flagged there.)
+			f, recv, _, _ := w.callee(x)
+			if f == nil || recv == nil || w.an.decl[f] != nil || freshResult[f.Name()] || !isRef(w.typeOf(x), 0) {
+				return nil
+			}
+			e = recv
 		case *ast.SelectorExpr:
 			if sel, ok := w.lp.info.Selections[x]; ok {
 				if sel.Kind() != types.FieldVal {
@@ -274,14 +316,30 @@ func (w *walker) refArg(e ast.Expr) types.Object {
 		w.handed[u] = true
 		return w.rootOf(u.X)
 	}
-	if _, isCall := e.(*ast.CallExpr); isCall {
-		return nil
-	}
 	r := w.rootOf(e)
 	if r == nil || !isRef(w.typeOf(e), 0) {
 		return nil
 	}
 	return r
+}
+
+func unparen(e ast.Expr) ast.Expr {
+	for {
+		p, ok := e.(*ast.ParenExpr)
+		if !ok {
+			return e
+		}
+		e = p.X
+	}
+}
+
+// resolveIdent: the tracked root an identifier stands for (itself, or what it is a local alias of)
+func (w *walker) resolveIdent(id *ast.Ident) types.Object {
+	o := w.lp.info.Uses[id]
+	if o == nil {
+		o = w.lp.info.Defs[id]
+	}
+	return w.resolve(o)
 }
 
 func (w *walker) callee(c *ast.CallExpr) (f *types.Func, recv ast.Expr, builtin string, isConv bool) {
@@ -357,6 +415,16 @@ func (w *walker) call(c *ast.CallExpr) {
 			if r := w.refArg(a); r != nil {
 				w.write(r, "passed to an unresolved callee")
 			}
+		}
+		// the function value itself lives in package-level state (a func variable, a func field / element of a
+		// package-level struct, map, slice …): its body is followed only when it is a plain func literal that is the
+		// variable's one and only value; anything else (a closure returned by a call, a value assigned in init, a field)
+		// is NOT followed and therefore reported
+		if r := w.rootOf(c.Fun); r != nil && isPkgLevelVar(r) {
+			if id, ok := unparen(c.Fun).(*ast.Ident); ok && w.an.litOf[w.resolveIdent(id)] != nil {
+				return
+			}
+			w.write(r, "call through a function value kept in package-level state (body not followed)")
 		}
 		return
 	}
@@ -448,6 +516,16 @@ func (w *walker) node(n ast.Node) bool {
 					w.write(r, "stored as a reference")
 				}
 			}
+		} else if len(x.Lhs) == 2 && len(x.Rhs) == 1 { // v, ok := m[k] / x.(T) / <-ch
+			if r := w.commaOkRoot(x.Rhs[0]); r != nil {
+				if id, isId := x.Lhs[0].(*ast.Ident); isId {
+					if o := w.objOf(id); id.Name != "_" && o != nil && !isPkgLevelVar(o) {
+						w.alias[o] = r
+					}
+				} else {
+					w.write(r, "stored as a reference")
+				}
+			}
 		}
 	case *ast.ValueSpec:
 		if len(x.Names) == len(x.Values) {
@@ -455,6 +533,42 @@ func (w *walker) node(n ast.Node) bool {
 				if r := w.refArg(v); r != nil {
 					if o := w.lp.info.Defs[x.Names[i]]; o != nil {
 						w.alias[o] = r
+					}
+				}
+			}
+		} else if len(x.Names) == 2 && len(x.Values) == 1 {
+			if r := w.commaOkRoot(x.Values[0]); r != nil {
+				if o := w.lp.info.Defs[x.Names[0]]; o != nil {
+					w.alias[o] = r
+				}
+			}
+		}
+	case *ast.TypeSwitchStmt: // switch v := x.(type): the per-clause variables share memory with x
+		var src ast.Expr
+		switch a := x.Assign.(type) {
+		case *ast.AssignStmt:
+			if len(a.Rhs) == 1 {
+				src = a.Rhs[0]
+			}
+		case *ast.ExprStmt:
+			src = a.X
+		}
+		if src != nil {
+			if r := w.rootOf(src); r != nil {
+				for _, cl := range x.Body.List {
+					if o := w.lp.info.Implicits[cl]; o != nil {
+						w.alias[o] = r
+					}
+				}
+			}
+		}
+	case *ast.SelectorExpr: // method VALUE x.M bound to tracked memory (not in call position): M may write x whenever called
+		if sel, ok := w.lp.info.Selections[x]; ok && sel.Kind() == types.MethodVal && !w.callFun[x] {
+			if r := w.rootOf(x.X); r != nil {
+				if f, ok := sel.Obj().(*types.Func); ok {
+					_, _, ptr := recvNamed(f)
+					if ptr || isRef(w.typeOf(x.X), 0) {
+						w.write(r, "method value "+funcName(f)+" bound to it (not followed)")
 					}
 				}
 			}
@@ -470,6 +584,10 @@ func (w *walker) node(n ast.Node) bool {
 			}
 		}
 	case *ast.CallExpr:
+		if w.callFun == nil {
+			w.callFun = map[ast.Expr]bool{}
+		}
+		w.callFun[unparen(x.Fun)] = true
 		w.call(x)
 	case *ast.ReturnStmt:
 		for _, e := range x.Results {
@@ -491,19 +609,68 @@ func (w *walker) node(n ast.Node) bool {
 			w.write(r, "sent on a channel")
 		}
 	case *ast.RangeStmt:
+		src := w.rootOf(x.X)
 		for _, e := range []ast.Expr{x.Key, x.Value} {
 			if e == nil {
 				continue
 			}
-			if _, ok := e.(*ast.Ident); ok {
+			if id, ok := e.(*ast.Ident); ok {
+				o := w.objOf(id)
+				switch {
+				case id.Name == "_" || o == nil:
+				case w.tracked(o):
+					if !w.param {
+						w.write(o, "range assignment")
+					}
+				case src != nil && isRef(o.Type(), 0) && !isPkgLevelVar(o):
+					// for _, n := range pool: an element of reference kind shares memory with what the container holds
+					w.alias[o] = src
+				}
 				continue
 			}
 			if r := w.rootOf(e); r != nil {
 				w.write(r, "range assignment")
 			}
+			if src != nil && isRef(w.typeOf(e), 0) {
+				w.write(src, "element stored as a reference by range")
+			}
 		}
 	}
 	return true
+}
+
+// commaOkRoot: the tracked root of the value of a two-valued expression (m[k], x.(T), <-ch) when it is of reference kind
+func (w *walker) commaOkRoot(e ast.Expr) types.Object {
+	switch unparen(e).(type) {
+	case *ast.IndexExpr, *ast.TypeAssertExpr, *ast.UnaryExpr:
+	default:
+		return nil
+	}
+	r := w.rootOf(e)
+	if r == nil {
+		return nil
+	}
+	t := w.typeOf(e)
+	if tup, ok := t.(*types.Tuple); ok && tup.Len() > 0 {
+		t = tup.At(0).Type()
+	}
+	if !isRef(t, 0) {
+		return nil
+	}
+	return r
+}
+
+// walk: the body is inspected until the alias map is stable (a use may precede, in the text, the assignment that makes
+// a local an alias — loops), the findings of the last pass count
+func (w *walker) walk(body ast.Node) {
+	for pass := 0; pass < 8; pass++ {
+		n := len(w.alias)
+		w.out, w.handed, w.callFun = nil, nil, nil
+		ast.Inspect(body, w.node)
+		if len(w.alias) == n && pass > 0 {
+			return
+		}
+	}
 }
 
 func (w *walker) objOf(id *ast.Ident) types.Object {
@@ -551,7 +718,7 @@ func (an *analysis) paramWritten(f *types.Func, idx int) bool {
 			po := lp.info.Defs[id]
 			w := &walker{an: an, lp: lp, fn: funcName(f), tracked: func(o types.Object) bool { return o == po }, param: true,
 				alias: map[types.Object]types.Object{}, reads: map[types.Object]bool{}, syncs: map[types.Object]bool{}}
-			ast.Inspect(fd.Body, w.node)
+			w.walk(fd.Body)
 			res = len(w.out) > 0
 		}
 	}
@@ -563,26 +730,64 @@ func (an *analysis) paramWritten(f *types.Func, idx int) bool {
 	return res
 }
 
-// closure of the roots inside the fully loaded packages; `stop` names functions that bound it
-func (an *analysis) closure(roots []*types.Func, stop map[string]bool) []*types.Func {
-	seen := map[*types.Func]bool{}
-	var order []*types.Func
-	var visit func(f *types.Func)
-	visit = func(f *types.Func) {
-		if seen[f] || an.decl[f] == nil || stop[funcName(f)] {
+// unit: a body that runs after initialisation — a declared function / method, or a func literal found in the
+// initialiser of a package-level variable (it can only capture package-level state)
+type unit struct {
+	name string
+	f    *types.Func  // nil for a literal
+	lit  *ast.FuncLit // nil for a declared function
+	body *ast.BlockStmt
+	lp   *loadedPkg
+}
+
+func (an *analysis) unitOfFunc(f *types.Func) *unit {
+	fd := an.decl[f]
+	if fd == nil {
+		return nil
+	}
+	return &unit{name: funcName(f), f: f, body: fd.Body, lp: an.owner[f]}
+}
+
+// closure of the roots inside the fully loaded packages; `stop` names functions that bound it. A call through a
+// package-level func variable whose only value is a func literal continues in that literal.
+func (an *analysis) closure(roots []*unit, stop map[string]bool) []*unit {
+	seen := map[interface{}]bool{}
+	var order []*unit
+	var visit func(u *unit)
+	visit = func(u *unit) {
+		if u == nil || stop[u.name] {
 			return
 		}
-		seen[f] = true
-		order = append(order, f)
-		fd, lp := an.decl[f], an.owner[f]
-		if fd.Body == nil {
+		var key interface{} = u.f
+		if u.f == nil {
+			key = u.lit
+		}
+		if seen[key] {
 			return
 		}
-		w := &walker{an: an, lp: lp}
-		ast.Inspect(fd.Body, func(n ast.Node) bool {
-			if c, ok := n.(*ast.CallExpr); ok {
-				if g, _, _, _ := w.callee(c); g != nil {
-					visit(g)
+		seen[key] = true
+		order = append(order, u)
+		if u.body == nil {
+			return
+		}
+		w := &walker{an: an, lp: u.lp}
+		ast.Inspect(u.body, func(n ast.Node) bool {
+			switch x := n.(type) {
+			case *ast.CallExpr:
+				if g, _, _, _ := w.callee(x); g != nil {
+					visit(an.unitOfFunc(g))
+				}
+			case *ast.Ident: // any mention of a func variable with a literal body (called now, or handed on and called later)
+				if o := u.lp.info.Uses[x]; o != nil {
+					if lit := an.litOf[o]; lit != nil {
+						visit(&unit{name: "func literal of " + varName(o), lit: lit, body: lit.Body, lp: an.litLp[lit]})
+					}
+				}
+			case *ast.SelectorExpr: // method values / method expressions: the method may be called later
+				if sel, ok := u.lp.info.Selections[x]; ok && sel.Kind() != types.FieldVal {
+					if g, ok := sel.Obj().(*types.Func); ok {
+						visit(an.unitOfFunc(g))
+					}
 				}
 			}
 			return true
@@ -623,53 +828,129 @@ func leanStrList(xs []string) string {
 	return "[\n  " + strings.Join(q, ",\n  ") + "]"
 }
 
-// genShared writes Gen/C08Shared.lean and returns the number of regenerated definitions.
-func genShared() (int, error) {
-	fset := token.NewFileSet()
-	path := gocoinMod + "lib/secp256k1"
-	m := &srcImporter{fset: fset, std: importer.ForCompiler(fset, "source", nil), full: map[string]bool{path: true}, loaded: map[string]*loadedPkg{}}
-	lp, err := m.load(path)
-	if err != nil {
-		return 0, err
-	}
-	an := &analysis{fset: fset, pkgs: []*loadedPkg{lp}, decl: map[*types.Func]*ast.FuncDecl{}, owner: map[*types.Func]*loadedPkg{}, memo: map[string]int{}}
-	var roots []*types.Func
-	var invRoot *types.Func
+// sharedFacts: the result of the analysis of one package
+type sharedFacts struct {
+	reads, writes, syncs []string
+	invShared            bool
+}
+
+// analysePkg classifies every use of a package-level variable by the code of lp that runs after initialisation:
+// every declared function except init / init_contants, and every func literal in the initialiser of a package-level
+// variable except one that is called on the spot (that call IS initialisation; what it returns is judged where it is
+// used). invName names the function whose call closure decides invScratchShared.
+func analysePkg(fset *token.FileSet, lp *loadedPkg, invName string) (*sharedFacts, error) {
+	an := &analysis{fset: fset, pkgs: []*loadedPkg{lp}, decl: map[*types.Func]*ast.FuncDecl{}, owner: map[*types.Func]*loadedPkg{}, memo: map[string]int{},
+		litOf: map[types.Object]*ast.FuncLit{}, litLp: map[*ast.FuncLit]*loadedPkg{}}
+	var roots []*unit
+	var invRoot *unit
 	for _, f := range lp.files {
 		for _, d := range f.Decls {
-			fd, ok := d.(*ast.FuncDecl)
-			if !ok {
-				continue
+			switch fd := d.(type) {
+			case *ast.FuncDecl:
+				fo, ok := lp.info.Defs[fd.Name].(*types.Func)
+				if !ok {
+					continue
+				}
+				an.decl[fo], an.owner[fo] = fd, lp
+			case *ast.GenDecl:
+				if fd.Tok != token.VAR {
+					continue
+				}
+				for _, sp := range fd.Specs {
+					vs := sp.(*ast.ValueSpec)
+					for i, v := range vs.Values {
+						if lit, ok := unparen(v).(*ast.FuncLit); ok && len(vs.Names) == len(vs.Values) {
+							if o := lp.info.Defs[vs.Names[i]]; o != nil {
+								an.litOf[o], an.litLp[lit] = lit, lp
+							}
+						}
+					}
+				}
 			}
-			fo, ok := lp.info.Defs[fd.Name].(*types.Func)
-			if !ok {
-				continue
+		}
+	}
+	// a func variable that is assigned anywhere (init included) does not keep its literal: calls through it are not followed
+	for _, f := range lp.files {
+		ast.Inspect(f, func(n ast.Node) bool {
+			switch x := n.(type) {
+			case *ast.AssignStmt:
+				for _, l := range x.Lhs {
+					if id, ok := unparen(l).(*ast.Ident); ok {
+						delete(an.litOf, lp.info.Uses[id])
+					}
+				}
+			case *ast.UnaryExpr: // &fnVar: may be assigned through the pointer
+				if id, ok := unparen(x.X).(*ast.Ident); ok && x.Op == token.AND {
+					delete(an.litOf, lp.info.Uses[id])
+				}
+			case *ast.RangeStmt:
+				for _, e := range []ast.Expr{x.Key, x.Value} {
+					if id, ok := e.(*ast.Ident); ok {
+						delete(an.litOf, lp.info.Uses[id])
+					}
+				}
 			}
-			an.decl[fo], an.owner[fo] = fd, lp
-			// initialisation (runs once, before any caller): init() has no object; init_contants is its helper
-			if fd.Name.Name == "init" || fd.Name.Name == "init_contants" {
-				continue
-			}
-			roots = append(roots, fo)
-			if funcName(fo) == "secp256k1.Field.InvVar" {
-				invRoot = fo
+			return true
+		})
+	}
+	for _, f := range lp.files {
+		for _, d := range f.Decls {
+			switch fd := d.(type) {
+			case *ast.FuncDecl:
+				fo, ok := lp.info.Defs[fd.Name].(*types.Func)
+				// initialisation (runs once, before any caller): init() has no object; init_contants is its helper
+				if !ok || fd.Name.Name == "init" || fd.Name.Name == "init_contants" {
+					continue
+				}
+				u := an.unitOfFunc(fo)
+				roots = append(roots, u)
+				if u.name == invName {
+					invRoot = u
+				}
+			case *ast.GenDecl:
+				if fd.Tok != token.VAR {
+					continue
+				}
+				for _, sp := range fd.Specs {
+					vs := sp.(*ast.ValueSpec)
+					nm := "?"
+					if len(vs.Names) > 0 {
+						nm = vs.Names[0].Name
+					}
+					for _, v := range vs.Values {
+						var onSpot *ast.FuncLit
+						if c, ok := unparen(v).(*ast.CallExpr); ok {
+							onSpot, _ = unparen(c.Fun).(*ast.FuncLit)
+						}
+						ast.Inspect(v, func(n ast.Node) bool {
+							lit, ok := n.(*ast.FuncLit)
+							if !ok {
+								return true
+							}
+							if lit == onSpot {
+								return true // its own statements run during initialisation; literals nested in it are scanned
+							}
+							roots = append(roots, &unit{name: fmt.Sprintf("%s.func literal in the initialiser of %s", lp.pkg.Name(), nm), lit: lit, body: lit.Body, lp: lp})
+							return false // nested literals are part of this body
+						})
+					}
+				}
 			}
 		}
 	}
 	if invRoot == nil {
-		return 0, fmt.Errorf("secp256k1: method Field.InvVar not found")
+		return nil, fmt.Errorf("%s not found", invName)
 	}
-	sort.Slice(roots, func(i, j int) bool { return funcName(roots[i]) < funcName(roots[j]) })
+	sort.SliceStable(roots, func(i, j int) bool { return roots[i].name < roots[j].name })
 	readSet, writeSet, syncSet := map[string]bool{}, map[string]bool{}, map[string]bool{}
-	scan := func(fs []*types.Func) (writes []finding) {
-		for _, f := range fs {
-			fd, lp := an.decl[f], an.owner[f]
-			if fd.Body == nil {
+	scan := func(us []*unit) (writes []finding) {
+		for _, u := range us {
+			if u.body == nil {
 				continue
 			}
-			w := &walker{an: an, lp: lp, fn: funcName(f), tracked: isPkgLevelVar, alias: map[types.Object]types.Object{},
+			w := &walker{an: an, lp: u.lp, fn: u.name, tracked: isPkgLevelVar, alias: map[types.Object]types.Object{},
 				reads: map[types.Object]bool{}, syncs: map[types.Object]bool{}}
-			ast.Inspect(fd.Body, w.node)
+			w.walk(u.body)
 			for o := range w.reads {
 				readSet[varName(o)] = true
 			}
@@ -680,7 +961,7 @@ func genShared() (int, error) {
 		}
 		return
 	}
-	stop := map[string]bool{"secp256k1.init_contants": true}
+	stop := map[string]bool{lp.pkg.Name() + ".init_contants": true}
 	for _, fd := range scan(an.closure(roots, stop)) {
 		writeSet[fd.fn+": "+fd.v+" ("+fd.how+")"] = true
 	}
@@ -689,7 +970,7 @@ func genShared() (int, error) {
 	{
 		r2, w2, s2 := readSet, writeSet, syncSet
 		readSet, writeSet, syncSet = map[string]bool{}, map[string]bool{}, map[string]bool{}
-		invShared = len(scan(an.closure([]*types.Func{invRoot}, stop))) > 0
+		invShared = len(scan(an.closure([]*unit{invRoot}, stop))) > 0
 		readSet, writeSet, syncSet = r2, w2, s2
 	}
 	keys := func(m map[string]bool) (out []string) {
@@ -699,23 +980,44 @@ func genShared() (int, error) {
 		sort.Strings(out)
 		return
 	}
+	return &sharedFacts{keys(readSet), keys(writeSet), keys(syncSet), invShared}, nil
+}
+
+// genShared writes Gen/C08Shared.lean and returns the number of regenerated definitions.
+func genShared() (int, error) {
+	fset := token.NewFileSet()
+	path := gocoinMod + "lib/secp256k1"
+	m := &srcImporter{fset: fset, std: importer.ForCompiler(fset, "source", nil), full: map[string]bool{path: true}, loaded: map[string]*loadedPkg{}}
+	lp, err := m.load(path)
+	if err != nil {
+		return 0, err
+	}
+	// the analysis must first prove itself on known shapes (selftest.go): every way of hoisting InvVar's scratch number
+	// to package level that it claims to follow has to be reported, the harmless shapes of the package must not be
+	if err := sharedSelfTest(m); err != nil {
+		return 0, fmt.Errorf("shared-state analysis self-test: %v", err)
+	}
+	sf, err := analysePkg(fset, lp, "secp256k1.Field.InvVar")
+	if err != nil {
+		return 0, err
+	}
 	var sb strings.Builder
 	sb.WriteString("/- GENERATED by go/cmd/gen_c08 (shared.go) from lib/secp256k1 — do not edit; not in git. -/\n")
 	sb.WriteString("namespace GocoinV.Gen.C08Shared\n\n")
 	sb.WriteString("/-- package-level variables used by the functions of lib/secp256k1 (everything except init / init_contants) -/\n")
-	fmt.Fprintf(&sb, "def globalsRead : List String := %s\n\n", leanStrList(keys(readSet)))
-	sb.WriteString("/-- uses that write one of them (or hand it on as a reference): \"function: variable (how)\" -/\n")
-	fmt.Fprintf(&sb, "def globalsWritten : List String := %s\n\n", leanStrList(keys(writeSet)))
+	fmt.Fprintf(&sb, "def globalsRead : List String := %s\n\n", leanStrList(sf.reads))
+	sb.WriteString("/-- uses that write one of them (or hand it on as a reference, or reach it in a way the analysis does not follow): \"function: variable (how)\" -/\n")
+	fmt.Fprintf(&sb, "def globalsWritten : List String := %s\n\n", leanStrList(sf.writes))
 	sb.WriteString("/-- a value written inside Field.InvVar (its big-integer scratch number, …) is a package-level variable -/\n")
-	fmt.Fprintf(&sb, "def invScratchShared : Bool := %v\n\n", invShared)
-	fmt.Fprintf(&sb, "-- synchronised (sync / sync/atomic receivers, allowed): %s\n\n", strings.Join(keys(syncSet), ", "))
+	fmt.Fprintf(&sb, "def invScratchShared : Bool := %v\n\n", sf.invShared)
+	fmt.Fprintf(&sb, "-- synchronised (sync / sync/atomic receivers, allowed): %s\n\n", strings.Join(sf.syncs, ", "))
 	sb.WriteString("end GocoinV.Gen.C08Shared\n")
 	out := vlib.Root() + "/lean/GocoinV/Gen/C08Shared.lean"
 	os.Remove(out)
 	if err := os.WriteFile(out, []byte(sb.String()), 0644); err != nil {
 		return 0, err
 	}
-	for _, k := range keys(writeSet) {
+	for _, k := range sf.writes {
 		fmt.Println("SHARED-WRITE", k)
 	}
 	return 3, nil
